@@ -188,3 +188,200 @@ Theorem C11_key_cdf_set_partial :
     (wkey u w <= x <-> u <= x ^ w).
 Proof. exact key_cdf_set. Qed.
 Print Assumptions C11_key_cdf_set_partial.
+
+(* ================================================================== C11 x C01: the weighted sample INSIDE the served answer
+   (Model/ComposeMore.v, Proofs/LinkWrsServe.v).  Model/Serve.v writes an A / AAAA answer as an item
+   [IPick owner ty cls cands n] (candidates in reader order, number served; no draw) and C01 characterises the
+   candidates as the declared visible address records.  [realise K klt kpos keyof dr max x] runs the Wrs model above
+   ([feed] = Wrs.Add for every candidate, [records] = Wrs.ARecord / AAAARecord) on EVERY pick of the response x under
+   the key assignment [dr] (section, position of the pick, index of the candidate -> Uint32 draw; key =
+   [keyof draw weight]; MaxAnswers = the query's max answer in the answer section, 1 in the additional section) and
+   returns the response with plain records in all sections ([cresponse]: c_rcode, c_an, c_ns, c_ex ...).
+   Vocabulary of C01 (Properties/C01.v): [recs] declared records, [spec_response], [wf_recs], [wf_ns_rdata],
+   [wf_view], [wf_name], [store_v1]; [addr_records L recs t ty] (Spec/AnswerExtra): the declared, visible,
+   non-wildcard records of family ty of the name t.
+   [family_sound max fam chosen]: chosen are pairwise distinct records among fam (fam = chosen + rest as multisets),
+   all of positive weight, exactly min(max, number of positive weights in fam) many.
+   [rr_of_rec owner 1 r]: the record r as served (owner as queried, class IN, declared type, TTL, rdata).
+   Outside F18 = no draw is 0 or 2^32-1 (C11_zero_weight_never_served_refuted, C11_count_by_weight_refuted). *)
+Close Scope R_scope.
+Open Scope N_scope.
+From Coq Require Import Permutation.
+From DnsV Require Import Model.Store Model.LookupV1 Model.Serve Spec.Answer Spec.Rows Spec.AnswerExtra.
+From DnsV Require Import Proofs.Compile Proofs.ZoneCut Proofs.Referral Proofs.AnswerItems Proofs.V2Store.
+From DnsV Require Model.Compose Proofs.Compose.
+From DnsV Require Import Model.ComposeMore Proofs.LinkWrsServe Proofs.LinkWrsServeExample.
+
+Theorem C11_family_sound_meaning : forall max fam chosen,
+  family_sound max fam chosen <->
+  ((exists rest, Permutation (chosen ++ rest) fam) /\
+   List.Forall (fun r => 0 < r_weight r) chosen /\
+   nlen chosen = N.min max (nlen (filter (fun r => 0 <? r_weight r) fam))).
+Proof. intros. apply iff_refl. Qed.
+Print Assumptions C11_family_sound_meaning.
+
+(* C11_served_addresses_sound.  For every well-formed record set, location, query and max answer (the guards of
+   C01_response_is_spec) and every key assignment outside the F18 corner draws, the realised response y satisfies,
+   by response class of Spec/Answer.spec_response:
+   - Answer z nx ans soa (authoritative): rcode 3 iff nx, and NOERROR whenever the spec selects any record for the
+     name and type - in particular when only weight-0 addresses exist (then the answer has no address: count
+     min(max, 0) = 0 - but the name is reported existing);  the answer section is: the selected non-address records
+     in some order, then A records [chosen4], then AAAA records [chosen6], where chosen4 / chosen6 are pairwise
+     distinct declared visible address records of the queried name (or covering wildcard) of that family
+     ([of_type ty ans]), none of weight 0, exactly min(max, number with positive weight) of them; the number of
+     answer records is the number Model/Serve announced ([item_count]); with an empty answer exactly one declared
+     SOA in the authority section, else none;
+   - Referral z nsr (not DS): NOERROR, empty answer, the NS records of the cut;
+   - Refused: rcode 5 and three empty sections;
+   - additional section (Answer and Referral): a list [chosen] of (target t, family ty, record r), one per record,
+     each r a declared visible non-wildcard address record of t of family ty with positive weight, t the target of
+     an NS / MX record (owner of an HTTPS record) of the answer or authority section, at most one per target and
+     family (NoDup) and none for a (target, family) of which the answer or authority section already holds a record. *)
+Theorem C11_served_addresses_sound :
+  forall K klt kpos, key_order K klt kpos ->
+  forall keyof : N -> N -> K, (forall u w, u <= maxU32 -> kpos (keyof u w) = dk_pos (u, w)) ->
+  forall b recs L, wf_recs recs -> List.Forall wf_ns_rdata recs -> length L = 2%nat -> b <> RDB2 -> wf_view L recs = true ->
+  forall q n ecs max x (dr : draws),
+  wf_name n -> nlen (pack n) <= 255 -> lower_bytes (q_name q) = pack n -> (q_edns q = None \/ q_edns q = Some 0) ->
+  serve b (store_v1 recs) q (LocOk L) ecs max = OReply x ->
+  (forall s i j, 0 < dr s i j < maxU32) ->
+  let y := realise K klt kpos keyof dr max x in
+  let extras_ok :=
+    exists chosen : list (bytes * N * record),
+      c_ex y = map (fun c => mkRR (fst (fst c)) (snd (fst c)) (q_class q) (r_ttl (snd c)) (r_rdata (snd c))) chosen /\
+      NoDup (map fst chosen) /\
+      List.Forall (fun c => let t := fst (fst c) in let ty := snd (fst c) in let r := snd c in
+                (ty = 1 \/ ty = 28) /\
+                In r (addr_records L recs t ty) /\
+                0 < r_weight r /\
+                (exists it, In it (rs_an x ++ rs_ns x) /\ target_of it = Some t) /\
+                (forall r', In r' (c_an y ++ c_ns y) -> (rr_owner r', rr_type r') <> (t, ty))) chosen in
+  c_id y = q_id q /\ c_question y = question_of q /\ c_rcode y = rs_rcode x /\ c_aa y = rs_aa x /\
+  match spec_response L recs n (q_type q) with
+  | Refused => c_rcode y = 5 /\ c_an y = [] /\ c_ns y = [] /\ c_ex y = [] /\ nlen (c_an y) = item_count (rs_an x)
+  | Referral z nsr =>
+      q_type q <> 43 ->
+      c_rcode y = 0 /\ c_an y = [] /\ nlen (c_an y) = item_count (rs_an x) /\
+      (exists ord, Permutation ord nsr /\
+                   c_ns y = map (fun r => mkRR (pack z) 2 (q_class q) (r_ttl r) (r_rdata r)) ord) /\
+      extras_ok
+  | Answer z nx ans soa =>
+      c_rcode y = (if nx then 3 else 0) /\ (ans <> [] -> c_rcode y = 0) /\
+      nlen (c_an y) = item_count (rs_an x) /\
+      (exists others chosen4 chosen6,
+         c_an y = map (rr_of_rec (q_name q) 1) (others ++ chosen4 ++ chosen6) /\
+         Permutation others (filter (fun r => negb (is_addr_rec r)) ans) /\
+         family_sound max (of_type 1 ans) chosen4 /\
+         family_sound max (of_type 28 ans) chosen6) /\
+      (match c_an y with
+       | nil => exists r, In r soa /\ c_ns y = (mkRR (pack z) 6 1 (r_ttl r) (r_rdata r) :: nil)
+       | _ => c_ns y = []
+       end) /\
+      extras_ok
+  end.
+Proof. intros K klt kpos (H1 & H2 & H3). exact (served_addresses_sound_v1 K klt kpos H1 H2 H3). Qed.
+Print Assumptions C11_served_addresses_sound.
+
+(* [served_addresses_sound L recs n q ecs max x y] (used below) is literally that conclusion *)
+Theorem C11_served_addresses_sound_meaning : forall L recs n q ecs max x y,
+  served_addresses_sound L recs n q ecs max x y <->
+  (let extras_ok := extras_realised_sound L recs (q_class q) (rs_an x) (rs_ns x) y in
+   c_id y = q_id q /\ c_question y = question_of q /\ c_rcode y = rs_rcode x /\ c_aa y = rs_aa x /\
+   match spec_response L recs n (q_type q) with
+   | Refused => c_rcode y = 5 /\ c_an y = [] /\ c_ns y = [] /\ c_ex y = [] /\ nlen (c_an y) = item_count (rs_an x)
+   | Referral z nsr =>
+       q_type q <> 43 ->
+       c_rcode y = 0 /\ c_an y = [] /\ nlen (c_an y) = item_count (rs_an x) /\
+       (exists ord, Permutation ord nsr /\ c_ns y = map (ns_rr (pack z) (q_class q)) ord) /\
+       extras_ok
+   | Answer z nx ans soa =>
+       c_rcode y = (if nx then 3 else 0) /\ (ans <> [] -> c_rcode y = 0) /\
+       nlen (c_an y) = item_count (rs_an x) /\
+       (exists others chosen4 chosen6,
+          c_an y = map (rr_of_rec (q_name q) 1) (others ++ chosen4 ++ chosen6) /\
+          Permutation others (filter (fun r => negb (is_addr_rec r)) ans) /\
+          family_sound max (of_type 1 ans) chosen4 /\
+          family_sound max (of_type 28 ans) chosen6) /\
+       (match c_an y with
+        | nil => exists r, In r soa /\ c_ns y = (soa_rr (pack z) r :: nil)
+        | _ => c_ns y = []
+        end) /\
+       extras_ok
+   end).
+Proof. intros. apply iff_refl. Qed.
+Print Assumptions C11_served_addresses_sound_meaning.
+
+(* the same for the closest-key reader over the v2-keyed store (C01_response_is_spec_v2) *)
+Theorem C11_served_addresses_sound_v2 :
+  forall K klt kpos, key_order K klt kpos ->
+  forall keyof : N -> N -> K, (forall u w, u <= maxU32 -> kpos (keyof u w) = dk_pos (u, w)) ->
+  forall recs L, wf_recs recs -> List.Forall wf_ns_rdata recs -> length L = 2%nat -> wf_view L recs = true ->
+  forall q n ecs max x (dr : draws),
+  wf_name n -> nlen (pack n) <= 255 -> lower_bytes (q_name q) = pack n -> (q_edns q = None \/ q_edns q = Some 0) ->
+  serve RDB2 (store_v2 recs) q (LocOk L) ecs max = OReply x ->
+  (forall s i j, 0 < dr s i j < maxU32) ->
+  served_addresses_sound L recs n q ecs max x (realise K klt kpos keyof dr max x).
+Proof. intros K klt kpos (H1 & H2 & H3). exact (served_addresses_sound_v2 K klt kpos H1 H2 H3). Qed.
+Print Assumptions C11_served_addresses_sound_v2.
+
+(* ... and for every database form of Proofs/Compose.gen_declares (C12_gen_declares_meaning): the two row-level
+   compilations and EVERYTHING the modelled compilers produce from the text of a well-formed data file whose
+   declared records are recs - CDB from any record stream, RocksDB by builder or batches, v1 or v2 keys
+   (C01_file_level) *)
+Theorem C11_served_addresses_sound_file_level :
+  forall K klt kpos, key_order K klt kpos ->
+  forall keyof : N -> N -> K, (forall u w, u <= maxU32 -> kpos (keyof u w) = dk_pos (u, w)) ->
+  forall g L recs, Proofs.Compose.gen_declares g L recs ->
+  forall q n ecs max x (dr : draws),
+  wf_name n -> nlen (pack n) <= 255 -> lower_bytes (q_name q) = pack n -> (q_edns q = None \/ q_edns q = Some 0) ->
+  serve (Model.Compose.g_backend g) (Model.Compose.g_store g) q (LocOk L) ecs max = OReply x ->
+  (forall s i j, 0 < dr s i j < maxU32) ->
+  served_addresses_sound L recs n q ecs max x (realise K klt kpos keyof dr max x).
+Proof. intros K klt kpos (H1 & H2 & H3). exact (served_addresses_sound_gen K klt kpos H1 H2 H3). Qed.
+Print Assumptions C11_served_addresses_sound_file_level.
+
+(* the core, independent of the backend: ANY response that refines the spec (C01_response_refines_meaning) realises
+   soundly *)
+Theorem C11_realise_refines :
+  forall K klt kpos, key_order K klt kpos ->
+  forall keyof : N -> N -> K, (forall u w, u <= maxU32 -> kpos (keyof u w) = dk_pos (u, w)) ->
+  forall L recs n q ecs max x (dr : draws),
+  Proofs.FileLevel.response_refines L recs n q ecs max x ->
+  (forall s i j, 0 < dr s i j < maxU32) ->
+  served_addresses_sound L recs n q ecs max x (realise K klt kpos keyof dr max x).
+Proof. intros K klt kpos (H1 & H2 & H3). exact (realise_refines K klt kpos H1 H2 H3). Qed.
+Print Assumptions C11_realise_refines.
+
+(* the additional section in the counting form of C11_additional_section_one_per_family, on the realised message:
+   for every owner name and family the whole message holds at most one such record more than answer + authority,
+   and none more if they already hold one *)
+Theorem C11_served_additional_one_per_family : forall L recs qc an ns y,
+  extras_realised_sound L recs qc an ns y ->
+  forall t ty, (kcount t ty (c_an y ++ c_ns y ++ c_ex y) <= Nat.max 1 (kcount t ty (c_an y ++ c_ns y)))%nat.
+Proof. exact realised_one_per_family. Qed.
+Print Assumptions C11_served_additional_one_per_family.
+
+(* non-vacuity (ranks as keys, the key of a record = its draw): zone z. with NS n.z. (two visible addresses, one
+   for the client's location ab); a.z. with A records of weights 1, 0, 2, 5 and a weight-0 AAAA; w.z. with a
+   weight-0 A only.  ANY a.z. with max answer 2 serves the two positive-weight A records with the largest keys and
+   no AAAA; A w.z. is NOERROR with an empty answer and the SOA; NS z. gets ONE address of n.z. in the additional
+   section; the draws are in the open range.
+   The values e_recs, e_q1..3, e_x1 (the Serve outcome with its IPick), e_y1..3 (the realised responses) are spelled
+   out in Proofs/LinkWrsServeExample.v (list literals do not parse here after the Coquelicot import) *)
+Example C11_served_addresses_example :
+  wf_view e_L e_recs = true /\
+  lower_bytes (q_name e_q1) = pack e_n1 /\
+  serve CDB (store_v1 e_recs) e_q1 (LocOk e_L) None 2 = OReply e_x1 /\
+  (forall x, serve CDB (store_v1 e_recs) e_q1 (LocOk e_L) None 2 = OReply x ->
+     realise N rk_lt rk_pos draw_key e_dr 2 x = e_y1) /\
+  (forall x, serve CDB (store_v1 e_recs) e_q2 (LocOk e_L) None 2 = OReply x ->
+     realise N rk_lt rk_pos draw_key e_dr 2 x = e_y2) /\
+  (forall x, serve CDB (store_v1 e_recs) e_q3 (LocOk e_L) None 2 = OReply x ->
+     realise N rk_lt rk_pos draw_key e_dr 2 x = e_y3) /\
+  (forall s i j, 0 < e_dr s i j < maxU32).
+Proof. exact served_addresses_example. Qed.
+Print Assumptions C11_served_addresses_example.
+
+Example C11_draw_key_satisfiable : forall u w, u <= maxU32 -> rk_pos (draw_key u w) = dk_pos (u, w).
+Proof. exact draw_key_pos. Qed.
+Print Assumptions C11_draw_key_satisfiable.
